@@ -65,19 +65,39 @@ def term_of(e):
     return ("unk", render(e)[:30])
 
 
-def _applied(e):
-    """if e is COMB(input-ish) possibly under `?` / match-unwrapping, return COMB else None"""
+def _applied(e, inputs=()):
+    """if e is COMB(input-ish) possibly under `?` / match-unwrapping, return COMB else None.
+    `inputs`: names known STRUCTURALLY to hold the parse input (the ParseString parameter and every rebinding of it, see input_vars)"""
     while is_node(e) and e[0] in ("try", "paren"):
         e = e[1]
     if is_node(e) and e[0] == "match":
-        return _applied(e[1])
+        return _applied(e[1], inputs)
     if is_node(e) and e[0] == "call" and len(e[2]) == 1:
         a = e[2][0]
         while is_node(a) and a[0] in ("mcall",) and a[2] == "clone":
             a = a[1]
-        if is_node(a) and a[0] == "path" and re.search(r"input|^i$|remaining", a[1]):
+        if is_node(a) and a[0] == "path" and (a[1] in inputs or re.search(r"input|^i$|remaining", a[1])):
             return e[1]
     return None
+
+
+def input_vars(it):
+    """the local names that hold the parse input of a parser function, whatever they are called: the parameters of type ParseString and, transitively,
+    the first component X of every `let (X, PAT) = COMB(Y)..` whose Y is already one of them (the nom convention: the remaining input comes first)"""
+    names = {p[0][1] for p in it.get("sig", {}).get("inputs", []) if is_node(p[0]) and p[0][0] == "pident" and re.search(r"\bParseString\b", str(p[1]))}
+    if not names:
+        return names
+    lets = [st for st in walk(it["body"]) if st[0] == "let" and len(st) == 4 and st[2] is not None and is_node(st[1]) and st[1][0] == "ptuple" and len(st[1][1]) == 2
+            and st[1][1][0][0] == "pident"]
+    changed = True
+    while changed:
+        changed = False
+        for st in lets:
+            x = st[1][1][0][1]
+            if x not in names and _applied(st[2], names) is not None:
+                names.add(x)
+                changed = True
+    return names
 
 
 class Skeleton:
@@ -91,11 +111,12 @@ class Skeleton:
 
     def _scan(self):
         body = self.it["body"]
+        inputs = input_vars(self.it)
         for st in body:
             if st[0] == "let" and st[2] is not None and st[1][0] == "ptuple" and len(st[1][1]) == 2:
-                comb = _applied(st[2])
+                comb = _applied(st[2], inputs)
                 first = st[1][1][0]
-                if comb is not None and first[0] in ("pident", "pwild") and (first[0] == "pwild" or re.search(r"input|^i$", first[1])):
+                if comb is not None and first[0] in ("pident", "pwild") and (first[0] == "pwild" or first[1] in inputs or re.search(r"input|^i$", first[1])):
                     vpat = st[1][1][1]
                     vs = [p[1] for p in find(vpat, "pident")]
                     self.steps.append((vs, term_of(comb), vpat))
@@ -103,7 +124,7 @@ class Skeleton:
             # any other statement that applies a parser to input hides consumption
             if st[0] in ("let", "expr"):
                 tgt = st[2] if st[0] == "let" else st[1]
-                if tgt is not None and any(_applied(c) is not None for c in find(tgt, "call")):
+                if tgt is not None and any(_applied(c, inputs) is not None for c in find(tgt, "call")):
                     if not (st[0] == "expr" and st is body[-1]):
                         self.straight = False
         for n in walk(body):
